@@ -40,7 +40,7 @@ def tuplify(e):
 
 
 NODE_TAGS = {"lit", "var", "qext", "qvar", "qexpr", "arr", "obj", "block", "if", "op", "not", "assign", "assigninf",
-             "abort", "return", "call", "closure", "delext", "delvar", "existsext", "existsvar", "noop", "tvar", "text"}
+             "mergeassign", "abort", "return", "call", "closure", "delext", "delvar", "existsext", "existsvar", "noop", "tvar", "text"}
 
 
 def fix_ast(ast):
@@ -77,6 +77,8 @@ def fix_ast(ast):
                 return ("assign", tuple(e[1]), go(e[2]))
             if k == "assigninf":
                 return ("assigninf", tuple(e[1]), tuple(e[2]), go(e[3]), e[4])
+            if k == "mergeassign":
+                return ("mergeassign", tuple(e[1]), go(e[2]))
             if k == "abort":
                 return ("abort", None if e[1] is None else go(e[1]))
             if k == "return":
